@@ -62,6 +62,53 @@ def reserved_list(f, crate):
     return c, out
 
 
+def rule_inline_member_name(chk):
+    """A buffer-address global of the Vulkan flavour is initialised from a member of the inline constant block, and that
+    block's members are declared under the names the reflection lists, i.e. the global's NameMap name. HLSL
+    generate_global_variable is walked for such a global whose source name (`half`) differs from its NameMap name
+    (`half_0`): the member it reads is the NameMap name, and so is the name it declares."""
+    import interp as I
+    import exportmodel as EX
+    f = chk.facts
+    fn = f.fn("generate_global_variable", "rssl_hlsl")
+    if not fn:
+        return
+    d = EX.DeclRoundTrip(f)
+    opt = d.opt
+    g = I.Enum("GlobalVariable", None, {"name": d.loc("half"), "type_id": I.Enum("TypeId", None, {"0": 3}), "storage_class": I.Enum("GlobalStorage", "Static"),
+                                        "api_slot": opt(I.Enum("ApiBinding", None, {"set": 2, "location": I.Enum("ApiLocation", "InlineConstant", {"0": 8}), "slot_type": opt(None)})),
+                                        "lang_slot": I.Opaque("slot"), "init": opt(None), "is_bindless": False, "static_sampler": opt(None), "is_intrinsic": False})
+    mod = I.Enum("Module", None, {"global_registry": [g], "flags": I.Enum("ModuleFlags", None, {"requires_vk_binding": True, "requires_buffer_address": True, "assigned_api_slots": True})})
+    ext = d._ext(False, "half_0")
+    r = d._run(fn, [I.Enum("GlobalId", None, {"0": 0}), I.Enum("GenerateContext", None, {"module": mod, "name_map": I.Opaque("names")})], ext)
+    if r[0] == "unreadable":
+        chk.note("C15.inline-member: generate_global_variable is not readable on a buffer-address global (%s); not decided" % (r[1],))
+        return
+    bad = None
+    if r[0] != "Ok":
+        bad = "generate_global_variable %s on a buffer-address global placed in the inline constant block (%s)" % (r[0], r[1])
+    else:
+        names = []
+        st = [r[1]]
+        while st:
+            x = st.pop()
+            x = x.get() if isinstance(x, I.Ref) else x
+            if isinstance(x, I.Enum):
+                if x.adt == "ScopedIdentifier":
+                    ids = x.fields.get("identifiers") or []
+                    names.append("::".join(str((i_.fields.get("node") if isinstance(i_, I.Enum) else i_)) for i_ in ids))
+                st.extend(x.fields.values())
+            elif isinstance(x, (list, tuple)):
+                st.extend(x)
+            elif isinstance(x, str) and x in ("half", "half_0"):
+                names.append(x)
+        if "half" in names:
+            bad = "a buffer-address global `half` (emitted as `half_0`) is initialised from `g_inlineDescriptor2.half`: the block declares the member as `half_0`, and `half` is a reserved word of the target"
+        elif "half_0" not in names:
+            bad = "the NameMap name `half_0` of the global does not appear in what is emitted for it (%s)" % sorted(set(names))
+    chk.ob("C15.inline-member/name", bad is None, bad or "the inline constant block is read under the global's NameMap name", where(fn))
+
+
 def rule_namespace_nesting(chk):
     """Where a definition is declared: generate_root_definitions of both exporters read on a model module whose
     namespaces are A, A::B, A::B::C (the definition printer is a stand-in). A definition that lives in A::B::C is
@@ -203,6 +250,7 @@ def run(chk):
     rule_leaf_identifiers(chk)
     rule_struct_member_names(chk)
     rule_namespace_nesting(chk)
+    rule_inline_member_name(chk)
 
 
 def rule_builtins(chk, res):
@@ -381,7 +429,8 @@ def rule_leaf_identifiers(chk):
             chk.ob("C15.leafref/%s/%s/%s" % (tgt, g, owner), reason is not None, "%d site(s): %s" % (len(sites), reason) if reason else
                    "%s spells a reference with the unqualified name from %s (%d site(s)): an entity declared inside a namespace is then referred to without it - the reference names nothing, "
                    "or a same-named entity of the enclosing scope" % (owner, g, len(sites)), where(b, node), sample={"target": tgt, "getter": g, "function": owner, "sites": len(sites)})
-    chk.floor("C15.floor/leaf-identifier-sites", n, 5, "places where a leaf name is spelled as an identifier", "rssl_hlsl / rssl_msl")
+    # (the sites are a frozen allow-list: fewer sites are fine - a site moved into a helper that is handed the name - as long as the rule still sees the exporters spell leaf names at all)
+    chk.floor("C15.floor/leaf-identifier-sites", n, 2, "places where a leaf name is spelled as an identifier", "rssl_hlsl / rssl_msl")
 
 
 def rule_flow(chk):
